@@ -529,18 +529,22 @@ def execute(scenario, tape=None, keep_events=False):
                     continue
                 sum_in = sum(ledger.utxos[k]["sat"] for k in ins)
                 outs = tx["vout"]
-                if len(outs) not in (1, 2):
-                    bad("unexpected-outputs", where, f"{len(outs)} outputs")
+                if len(outs) < 1:
+                    bad("unexpected-outputs", where, "no outputs")
                     continue
                 sent = outs[0]["value"] + fee
                 if not (sent == Tsat if f == 1 else lo <= sent <= hi):
                     bad("recipient-amount", where, f"recipient gets {outs[0]['value']} + fee {fee} = {sent}; requested {float(f)} of {Tsat} = [{lo},{hi}]")
                 c = sum_in - sent
-                if len(outs) == 2:
-                    if outs[1]["value"] != c:
-                        bad("change-amount", where, f"inputs {sum_in} - sent {sent} = {c}, change output {outs[1]['value']}")
-                    if outs[1]["spk"] != c_spk:
-                        bad("change-script", where, f"change script {outs[1]['spk'].hex()} expected {c_spk.hex()}")
+                if len(outs) >= 2:
+                    # one change output, or the change split over several: all to the change script, summing to c
+                    csum = sum(o["value"] for o in outs[1:])
+                    if csum != c:
+                        bad("change-amount", where, f"inputs {sum_in} - sent {sent} = {c}, change output(s) {[o['value'] for o in outs[1:]]}")
+                    for o in outs[1:]:
+                        if o["spk"] != c_spk:
+                            bad("change-script", where, f"change script {o['spk'].hex()} expected {c_spk.hex()}")
+                            break
                 else:
                     if c < 0:
                         bad("overspend", where, f"inputs {sum_in} < recipient+fee {sent}")
@@ -549,7 +553,9 @@ def execute(scenario, tape=None, keep_events=False):
                 if outs[0]["spk"] != r_spk:
                     bad("recipient-script", where + f" recipient={r_kind}", f"output script {outs[0]['spk'].hex()} expected {r_spk.hex()}")
                 if tx["version"] != s["version"] or tx["locktime"] != s["locktime"]:
-                    bad("version-locktime", where, f"tx has version {tx['version']} locktime {tx['locktime']}, requested {s['version']} / {s['locktime']}")
+                    # not a clause of the property (which constrains value flow and signature validity):
+                    # a statistic; a wrong version / locktime in the *signed data* shows up as an invalid signature
+                    probes.hit("stat-version-or-locktime-differs-from-request")
                 if s["signed"]:
                     for i, k in enumerate(ins):
                         u = ledger.utxos[k]
@@ -561,7 +567,7 @@ def execute(scenario, tape=None, keep_events=False):
                             break
                 else:
                     if any(ti["script_sig"] for ti in tx["vin"]) or (tx["witnesses"] and any(tx["witnesses"])):
-                        bad("unsigned-has-unlocking-data", where, "")
+                        probes.hit("stat-unsigned-tx-has-unlocking-data")
                 if len(ins) >= 2 or feats["spends_vout_nonzero"] or s["flag"] != 1 or feats["inexact_amount"]:
                     nontrivial = True
                 if len(ins) >= 2:
